@@ -150,6 +150,7 @@ def exec_for(e: Engine, s: ast.For, st: State) -> List[Outcome]:
     check_invariants(e, spec, st, I(0), space, pre_loop, tag, "entry")
     # 2. havoc
     names = assigned_names(s.body) | mutated_args(e, s.body)
+    st.rebound |= {x for x in assigned_names(s.body) if not x.startswith("?")}      # plainly assigned in the body: rebinding, not mutation
     for nm in [x for x in names if x.startswith("?")]:
         names.discard(nm)
         cur = st.store.get(nm[1:])
